@@ -18,6 +18,15 @@ def tokenize(text):
         c = text[i]
         if c.isspace():
             i += 1
+        elif text.startswith('//', i) or (c == '#' and (
+                i == 0 or text[i - 1] == '\n')):
+            j = text.find('\n', i)
+            i = n if j < 0 else j + 1
+        elif text.startswith('/*', i):
+            j = text.find('*/', i + 2)
+            if j < 0:
+                raise DotError("unterminated comment starting at %d" % i)
+            i = j + 2
         elif c == '"':
             j = i + 1
             out = []
